@@ -31,15 +31,18 @@ BOUNDS = {
     'quick': 'definitions: every list of length 1..4 over {-3,-1,0,1,2,2.5,4} (2800) x 19 function names x 3 '
              'forms; regrouping: every list of length <=2 and every non-decreasing list of length 3 x every '
              'split into consecutive groups x 5..7 renderings per group x 15 functions; LARGE: lists <=3 x 5 '
-             'array renderings x every k; long lists: 6 families x lengths {5,8,13,21,40}; SLOPE: all pairs of '
-             'lists of length 2 and 3; criteria: numeric criteria ranges of length <=3 x 27 criteria x 7 '
-             'functions, two ranges for length <=2; text ranges of length <=3 over 6 strings x 8 patterns; '
-             'error items: 8 codes x every position of lists <=3 x 6 functions x 6 forms',
+             'array renderings x every k; long lists: 6 families x lengths {5,8,13,21,40} x 7 groupings; SLOPE: '
+             'all pairs of lists of length 2, y lists of length 3 x x lists over {-3,0,1,2.5}, long pairs; '
+             'criteria: numeric criteria ranges of length <=3 x 27 criteria x 7 function forms x 3 value lists, '
+             'two ranges for length <=2 (4 second criteria); text ranges of length <=3 over 6 strings x 8 '
+             'patterns (second numeric range for length <=2); error items: 8 codes + 6 producer expressions x '
+             'every position of lists <=3 x 6 functions x up to 6 forms, all ordered pairs of distinct codes',
     'thorough': 'as quick plus: regrouping of every list of length 3 (all renderings) and every '
-                'non-decreasing list of length 4 (5 renderings per group); LARGE lists <=4; long lists of every '
-                'length 5..40; SLOPE pairs of length 4 over {-3,0,1,2.5} and both forms; criteria ranges of '
-                'length 4, full value-list product for length 2, two ranges for length 3; text ranges of '
-                'length 4',
+                'non-decreasing list of length 4 (4..5 renderings per group, splits with >= 1 group of 2+); '
+                'LARGE lists <=4; long lists of every length 5..40; SLOPE all pairs of length 3 in both forms '
+                'and all pairs of length 4 over {-3,0,1,2.5}; criteria ranges of length 4, every value list '
+                'for length 2, two ranges for length 3, 8 second criteria for length <=2; text ranges of '
+                'length 4 with a second numeric range for every length',
 }
 ASSUMPTIONS = [
     'MODE: on a multimodal or all-distinct list any most-frequent value (or an error) is accepted; '
@@ -272,9 +275,11 @@ AGG = ['SUM', 'PRODUCT', 'AVERAGE', 'MIN', 'MAX', 'COUNT', 'MEDIAN', 'MODE', 'VA
 ALIASES = ['VAR.S', 'VAR.P', 'STDEV.S', 'STDEV.P']
 
 
-def agg_one(env, fn, shape, items, k=None, invariance=False):
-    """Evaluate fn over `items` rendered by `shape`; -> fail(...) or None."""
-    spec = ref_stat(fn, items, k)
+def agg_one(env, fn, shape, items, k=None, invariance=False, spec=False):
+    """Evaluate fn over `items` rendered by `shape`; -> fail(...) or None.
+    spec: the reference of (fn, items, k) when the caller has already computed it."""
+    if spec is False:
+        spec = ref_stat(fn, items, k)
     if spec is None:
         env.note(fn + ':undefined (not demanded)')
         return None
@@ -371,13 +376,16 @@ class Regrouping(AggBase):
         items, which = case[1], case[2]
         k1, k2 = (K1_ALL, K2_ALL) if which == 'all' else (K1_RED, K2_RED)
         out = []
-        specs = [fn for fn in AGG if ref_stat(fn, items) is not None]
+        specs = [(fn, ref_stat(fn, items)) for fn in AGG]
         for shape in shapes(len(items), k1, k2):
             if shape_is_plain(shape):
                 continue                  # c11.definitions
-            for fn in specs:
-                env.nt()
-                f = agg_one(env, fn, shape, items, invariance=True)
+            if which == 'red' and len(shape) == len(items):
+                continue                  # all-singleton splits are covered for length <= 3
+            for fn, spec in specs:
+                if spec is not None and spec[0] != 'oneof':
+                    env.nt()
+                f = agg_one(env, fn, shape, items, invariance=True, spec=spec)
                 if f:
                     out.append(f)
         return out[:8]
@@ -470,9 +478,10 @@ class LongLists(AggBase):
         items = long_list(fam, n)
         env.nt()
         out = []
+        specs = [(fn, ref_stat(fn, items)) for fn in AGG]
         for shape in long_shapes(n):
-            for fn in AGG:
-                f = agg_one(env, fn, shape, items, invariance=not shape_is_plain(shape))
+            for fn, spec in specs:
+                f = agg_one(env, fn, shape, items, invariance=not shape_is_plain(shape), spec=spec)
                 if f:
                     out.append(f)
         for kind in ('h', 'm', 'n', 'd'):
@@ -522,10 +531,13 @@ class Slope(Sub):
     min_classes = 3
 
     def cases(self, tier, unit):
-        forms = ['a'] if tier == 'quick' else ['a', 's']
-        for n in (2, 3):
-            for ys in lists_over(V, n):
-                yield ['ys', ys, 'V', forms if n == 3 else ['a', 's']]
+        for ys in lists_over(V, 2):
+            yield ['ys', ys, 'V', ['a', 's']]
+        for ys in lists_over(V, 3):
+            if tier == 'quick':
+                yield ['ys', ys, 'V4', ['a']]
+            else:
+                yield ['ys', ys, 'V', ['a', 's']]
         if tier != 'quick':
             for ys in lists_over(V4, 4):
                 yield ['ys', ys, 'V4', ['a']]
@@ -545,7 +557,7 @@ class Slope(Sub):
                 if f:
                     out.append(f)
             return out
-        ys, pool, forms = case[1], (V if case[2] == 'V' else V4), case[3]
+        ys, pool, forms = case[1], (V if case[2] == 'V' else V4), case[3]     # pool of the x lists
         for xs in lists_over(pool, len(ys)):
             for form in forms:
                 f = slope_one(env, form, ys, xs)
@@ -711,7 +723,7 @@ class CriteriaNumeric(CritBase):
                 yield ['cv', c]
         for n in range(1, (2 if tier == 'quick' else 3) + 1):
             for c in lists_over(V, n):
-                yield ['cc', c]
+                yield ['cc', c, 8 if (tier != 'quick' and n <= 2) else 4]
 
     def expand(self, env, case):
         kind, c = case[0], case[1]
@@ -739,7 +751,7 @@ class CriteriaNumeric(CritBase):
                     seconds.append(d)
             for d in seconds:
                 for ca in NUM_CRITS:
-                    for cb in SECOND_CRITS:
+                    for cb in SECOND_CRITS[:case[2]]:
                         for vals in (NEG[:n], MIX[:n]):
                             for fn in ('SUMIFS', 'AVERAGEIFS', 'MAXIFS'):
                                 yield fn, 'h', [c, d], [ca, cb], vals
@@ -763,7 +775,7 @@ class CriteriaText(CritBase):
     def cases(self, tier, unit):
         for n in range(1, (3 if tier == 'quick' else 4) + 1):
             for t in lists_over(TEXTS, n):
-                yield ['t', t]
+                yield ['t', t, n <= 2 or tier != 'quick']
 
     def expand(self, env, case):
         t = case[1]
@@ -775,7 +787,7 @@ class CriteriaText(CritBase):
                 for vals in (NEG[:n], MIX[:n]):
                     for fn in ('AVERAGEIF', 'SUMIFS', 'AVERAGEIFS', 'MAXIFS'):
                         yield fn, form, [t], [pat], vals
-            for cb in SECOND_CRITS:
+            for cb in (SECOND_CRITS if case[2] else []):
                 for vals in (NEG[:n], MIX[:n]):
                     for fn in ('SUMIFS', 'AVERAGEIFS', 'MAXIFS'):
                         yield fn, 'h', [t, MIX[:n]], [pat, cb], vals
